@@ -36,7 +36,7 @@ PROPS = {
                 rule='builder call sequences incl. repeats, reversed pairs, self edges, batches, out-of-range ids; non-trivial = at least one edge call; distinct = distinct call sequence',
                 exhaustive_scope='exh2ops: every sequence of <=2 (quick) / <=3 (thorough) edge calls from {L,C} x 9 ordered pairs on 3 nodes',
                 explanation='theorem: an edge call is refused iff a = b or a path b ~> a exists; refusal changes nothing; overwrite in place / append'),
-    'C17': dict(bundle='builder', tags=['GP', 'GN', 'GE', 'GI', 'GR', 'GS', 'GSE', 'GSI', 'GS2'], kinds=['B'], monitor=rb.mon_c17,
+    'C17': dict(bundle='builder', tags=['GP', 'GN', 'GE', 'GI', 'GR', 'GS', 'GSE', 'GSI', 'GS2', 'GY'], kinds=['B'], monitor=rb.mon_c17,
                 nontrivial=lambda c: c.obs.get('GE', '-') != '-',
                 rule='builder cases with feature graph_info: from_graph, iter, iter_rev, serde_yaml_ng round trip; non-trivial = at least one edge',
                 exhaustive_scope='as C11',
